@@ -57,14 +57,22 @@ class _Boom(Exception):
     pass
 
 
-def run_nesting(events, init_extra=None):
+def run_nesting(events, init_extra=None, private=False):
     """events: list of ('enter', kwargs_or_mapping, use_kwargs) / ('exit', exc: bool).  Runs them on the real global
-    config with properly nested `with` statements (recursion), records the configuration after every event."""
+    config with properly nested `with` statements (recursion), records the configuration after every event.
+    private: the contexts are created with config=<a dictionary of the caller's> (the rarely used keyword); the recorded configuration is
+    then the pair (that dictionary, the global configuration) - leaving a context restores the first and never touches the second."""
     from abtem.core import config as C
 
     saved = copy.deepcopy(C.config)
     interner = Interner()
     trace = []
+    priv = copy.deepcopy(init_extra) if (private and init_extra) else {}
+    if private:
+        real_flatten = flatten
+        snap = lambda _cfg, it: real_flatten({"P": priv, "G": C.config}, it)
+    else:
+        snap = flatten
     try:
         for k in list(C.config):
             if str(k).startswith("vf"):
@@ -72,7 +80,7 @@ def run_nesting(events, init_extra=None):
         if init_extra:
             for k, v in init_extra.items():
                 C.config[k] = copy.deepcopy(v)
-        trace.append({"a": "Init", "cfg": flatten(C.config, interner)})
+        trace.append({"a": "Init", "cfg": snap(C.config, interner)})
         pos = 0
 
         def body():
@@ -85,14 +93,17 @@ def run_nesting(events, init_extra=None):
                 pos += 1
                 mapping, use_kw = ev[1], ev[2]
                 try:
-                    ctxm = C.set(**mapping) if use_kw else C.set(mapping)
+                    if private:
+                        ctxm = C.set(config=priv, **mapping) if use_kw else C.set(mapping, config=priv)
+                    else:
+                        ctxm = C.set(**mapping) if use_kw else C.set(mapping)
                 except Exception:
-                    trace.append({"a": "EnterFails", "cfg": flatten(C.config, interner)})
+                    trace.append({"a": "EnterFails", "cfg": snap(C.config, interner)})
                     continue
                 exc = False
                 try:
                     with ctxm:
-                        trace.append({"a": "Enter", "cfg": flatten(C.config, interner)})
+                        trace.append({"a": "Enter", "cfg": snap(C.config, interner)})
                         exc = body()
                         pos += 1  # consume the exit event
                         if exc:
@@ -104,7 +115,7 @@ def run_nesting(events, init_extra=None):
                     exc = True
                     if pos < len(events) and events[pos][0] == "exit":
                         pos += 1
-                trace.append({"a": "ExitExc" if exc else "Exit", "cfg": flatten(C.config, interner)})
+                trace.append({"a": "ExitExc" if exc else "Exit", "cfg": snap(C.config, interner)})
             return False
 
         body()
@@ -330,8 +341,9 @@ def run(ctx: Ctx):
         items.append((ev, t))
     for _ in range(1000 if quick else 40000):
         ev = close_all(fuzz_events(rng))
-        t = run_nesting(ev, INIT_EXTRA if rng.random() < 0.5 else None)
-        ctx.case(json.dumps(ev, default=str), nontrivial=any(x["a"] in ("Exit", "ExitExc") for x in t))
+        private = rng.random() < 0.25
+        t = run_nesting(ev, INIT_EXTRA if rng.random() < 0.5 else None, private=private)
+        ctx.case(json.dumps([ev, private], default=str), nontrivial=any(x["a"] in ("Exit", "ExitExc") for x in t))
         items.append((ev, t))
     for ev, t in items[:1] + items[-2:]:
         ctx.sample({"events": ev, "observed": [x["a"] for x in t]})
@@ -343,6 +355,8 @@ def replay(ctx: Ctx, case):
     ev = [tuple(e) for e in case["events"]]
     t = run_nesting(ev, INIT_EXTRA)
     t2 = run_nesting(ev, None)
+    t3 = run_nesting(ev, INIT_EXTRA, private=True)
+    t4 = run_nesting(ev, None, private=True)
     ctx.case("replay")
     ctx.sample({"events": ev, "observed": [x["a"] for x in t]})
-    judge(ctx, [(ev, t), (ev, t2)])
+    judge(ctx, [(ev, t), (ev, t2), (ev, t3), (ev, t4)])
